@@ -288,6 +288,43 @@ func runC15(c C15Case) (st Stats, err error) {
 		}
 	}
 
+	// a destination handed over by pointer is whatever the pointer points to NOW: the same pointer is used
+	// again after its pointee was replaced by (a) a zero value, (b) a read-only stack, (c) a fresh roomy stack
+	if ptr, isPtr := dstArg.(*stackage.Stack); isPtr && ptr != nil && (c.Form == "ptrstack" || c.Form == "readonly-ptrstack") {
+		old := *ptr
+		oldSnap := Snapshot(old)
+		var v *Violation
+		p := guard(func() {
+			*ptr = stackage.Stack{}
+			if src.Transfer(ptr) {
+				v = violf("pointer-reuse/zero-pointee", "Transfer returned true for a pointer whose pointee is now a zero Stack")
+				return
+			}
+			ro := stackage.Basic().Push("keep").SetReadOnly(true)
+			*ptr = ro
+			if src.Transfer(ptr) || ro.Len() != 1 {
+				v = violf("pointer-reuse/read-only-pointee", "Transfer through a pointer whose pointee is now a read-only stack: returned true or changed it (Len %d)", ro.Len())
+				return
+			}
+			fresh := stackage.Basic()
+			*ptr = fresh
+			ok := src.Transfer(ptr)
+			if ok != (fresh.Len() == c.SrcLen) || (c.SrcLen > 0 && !filterDrops && !ok && c.Opt == "plain") {
+				v = violf("pointer-reuse/fresh-pointee", "Transfer through a pointer whose pointee is now a fresh stack returned %v and put %d of %d elements there", ok, fresh.Len(), c.SrcLen)
+				return
+			}
+			if after := Snapshot(old); after != oldSnap {
+				v = violf("pointer-reuse/former-pointee-changed", "Transfer through the re-pointed pointer changed the stack it used to point to: %s", diffSnap(oldSnap, after))
+			}
+		})
+		if p != "" {
+			return st, violf("pointer-reuse/panic", "%s", p)
+		}
+		if v != nil {
+			return st, v
+		}
+		st.Class("destination-pointer-reused")
+	}
 	st.NonTrivial = (free > 0 && free < c.SrcLen) || (free == c.SrcLen && c.SrcLen > 0) || filterDrops
 	st.Sig = fmt.Sprintf("%+v", c)
 	return st, nil
